@@ -97,19 +97,50 @@ def dim_exps(d):
     return list(d.exponents)
 
 
+class DoesNotTerminate(BaseException):
+    """one operation used more than CPU_LIMIT seconds of this process's own CPU time (not wall-clock time: a loaded machine
+    does not count).  Operations of these histories take milliseconds"""
+
+
+CPU_LIMIT = 20.0
+
+
 def run(spec, out):
+    import signal
+
     w = World(spec)
     m, conv = w.m, w.conv
     res = out["results"]
+
+    def out_of_time(*_):
+        raise DoesNotTerminate(f"more than {CPU_LIMIT} s of CPU time in one operation")
+
+    try:
+        signal.signal(signal.SIGVTALRM, out_of_time)
+        timed = True
+    except (ValueError, AttributeError):
+        timed = False
+    gave_up = False
     for op in spec["ops"]:
         kind = op[0]
+        if gave_up:
+            res.append({"raise": "NotRun", "msg": "an earlier operation did not terminate; the process was not trusted any further"})
+            continue
         try:
-            r = step(w, kind, op)
+            if timed:
+                signal.setitimer(signal.ITIMER_VIRTUAL, CPU_LIMIT)
+            try:
+                r = step(w, kind, op)
+            finally:
+                if timed:
+                    signal.setitimer(signal.ITIMER_VIRTUAL, 0)
             res.append({"ok": r})
         except BaseException as e:  # noqa
             if isinstance(e, (KeyboardInterrupt, SystemExit)):
                 raise
             res.append({"raise": type(e).__name__, "msg": str(e)[:200]})
+            if isinstance(e, DoesNotTerminate):
+                gave_up = True
     if spec.get("sweep"):
         out["sweep"] = sweep(w)
 
